@@ -167,6 +167,24 @@ def netguard(ctx):
             ctx.violate(q, 'an address valid for %s is refused on a bitcoin transaction' % guesses, ifs[0])
     src = unparse(ifs[0].test)
     ctx.require("address_dict['networks']" in unparse(fn) , q, 'the network list is not the one decoded from the address', fn)
+    # the block that decodes (and thereby validates) an address STRING is entered whenever the caller did not also state the encoding:
+    # an address handed over together with a locking script, or with hash + script type (how provider clients, the cache and the wallet
+    # loader build outputs), is still decoded and tested against the network
+    dblocks = [n for n in ast.walk(fn) if isinstance(n, ast.If) and any(isinstance(c, ast.Call) and norm(c.func) == 'deserialize_address' for x in n.body for c in ast.walk(x))]
+    if not dblocks:
+        ctx.undecided('Output.__init__: block that decodes the address string not found')
+    for label, ph, stype, enc, want in (('address alone', b'', None, None, True), ('address + locking script / hash + script type, no encoding', b'\x11' * 20, 'p2pkh', None, True),
+                                        ('address + hash, no script type', b'\x11' * 20, None, None, True)):
+        it2 = Interp(ctx.repo, 'transactions', self_cls='transactions:Output')
+        st = State(env={'self': S(SELF), 'script_type': stype, 'encoding': enc})
+        for k, v in (('_address', 'some-address'), ('public_hash', ph), ('script_type', stype), ('encoding', enc), ('public_key', b'')):
+            st.heap[A(SELF, k)] = v
+        t = it2.truth(it2.eval(dblocks[0].test, st), st)
+        ctx.saw('%s -> address string decoded and checked: %s' % (label, t))
+        if not isinstance(t, bool):
+            ctx.undecided('Output.__init__: guard of the address decoding `%s` not decidable' % norm(dblocks[0].test)[:80])
+        ctx.require(t is want, q, '%s: the address string is adopted without being decoded (guard `%s`)' % (label, norm(dblocks[0].test)[:100]), dblocks[0],
+                    'a testnet / litecoin address - or plain garbage - passed together with a locking script is accepted into a bitcoin transaction and reported as its address')
 
 
 @PROP.obligation('C05.object-payload', canaries=[
